@@ -28,7 +28,7 @@ CHECKS = {
          "Generated hostile scripts (every malformation class the statement lists, at every position of a valid STAT sequence; mode words with two type bits; hard links to inodes shared with the outside; the writer's temporary names planted as symlinks with the name generator pinned through the verif hook; receivers with a rejecting Filter; content after a terminator) against destinations full of outward symlinks, in normal/merge/metadata-only mode. Containment is checked on every script (also when the receiver crashes), rejection and not-applied-after-offence on malformed ones. Held on the executions observed.",
          "Trusts chroot(2) and the snapshot walker; single attacker (the peer), no concurrent local attacker; receiver crash counts as a failed call.", "DESIGN.md §5 C03, §4.6"),
  "C04": ("fault_enumeration", "fault injection at every operation index of a fixed transfer + structural quiescence detector (goroutine stack sampling) for termination and leaks + C01 oracle for false success + follow-up clean transfer; SIGKILL of a receiver process over real pipes",
-         "For a fixed 12-entry transfer every operation index of every fault class is enumerated (stream send/recv error and EOF on both endpoints, cancellation of either context, walk error, an entry vanishing between listing and lstat, an unreadable source root, read error at 5 offsets, hasher/notify error, SIGKILL of the receiver after k packets), plus sampled faults with >132 requests pending. No stream operation may start on an endpoint after its call returned. Termination is decided structurally (teardown once, quiescence afterwards = violation), never by a timer. Held on the fault runs observed; plans whose operation was never reached are reported as not fired.",
+         "For a fixed 12-entry transfer every operation index of every fault class is enumerated (stream send/recv error and EOF on both endpoints, cancellation of either context, walk error, an entry vanishing between listing and lstat, an unreadable source root, read error at 5 offsets, hasher/notify error, SIGKILL of the receiver after k packets), plus sampled faults with >132 requests pending. No stream operation may start on an endpoint after its call returned (known finding K12: a rare residue, rate-bounded). Termination is decided structurally (teardown once, quiescence afterwards = violation), never by a timer. Held on the fault runs observed; plans whose operation was never reached are reported as not fired.",
          "fsutil uses no timers (a quiescent process cannot progress on its own); teardown = both directions fail, and - in one of the two runs of every plan - both contexts cancelled (the other run keeps the contexts alive and uses a transport that ignores them); Open errors and receiver-side disk errors are not injected.", "DESIGN.md §5 C04, §4.7"),
  "C06": ("exploration", "online protocol monitor: an independent reference receiver (written from the protocol text) drives the real Send with request scripts and checks every emitted packet; progress callbacks recorded",
          "Source views x request scripts (any subset/order, bursts >132, requests racing the STAT stream, duplicate/unknown/non-file ids, a sequential receiver that writes all requests before it reads on - known finding K11), disk-backed fan-out views under a descriptor limit x stream capacities and delays; STAT sequence compared with the independent snapshot, DATA reassembled per id and compared with the file bytes. Held on the sessions observed.",
